@@ -345,6 +345,217 @@ theorem toInc_error_of_key_mismatch {t : List Cell} (h : WFcumUpToKeys t)
     Except.map, Except.bind]
 
 
+/-- an incremental triangle in canonical form in which, apart from the key sets, consecutive cells
+of every row are compatible -/
+structure WFincUpToKeys (u : List Cell) : Prop where
+  sorted : u.Pairwise (fun a b => Cell.cmp a b = .lt)
+  isInc : ∀ c ∈ u, c.kind = .incremental
+  dates : ∀ c ∈ u, c.datesOk = true
+  adj : ∀ k, AdjOK (u.filter (fun c => rowKey c == k))
+
+/-- **refusal of inconsistent fields (incremental side)**: if in some row two consecutive cells have
+different key sets, `to_cumulative` raises `TriangleError` (whether or not the chain is complete). -/
+theorem toCum_error_of_key_mismatch {u : List Cell} (h : WFincUpToKeys u)
+    (hb : ∃ k, HasMismatch (u.filter (fun c => rowKey c == k))) :
+    Triangle.toCumulative u = .error .triangleError := by
+  obtain ⟨kb, hkb⟩ := hb
+  have G := groupBy_inv rowKey u
+  have hrows := orderedRows_of_strict h.sorted
+  have hne : u ≠ [] := by
+    intro e; rw [e] at hkb; exact hkb
+  have hinc := isIncremental_of_all h.isInc hne
+  have outcome : ∀ k r, r = u.filter (fun c => rowKey c == k) →
+      ((∃ cs, cumRow k r = .ok cs) ∧ ¬ HasMismatch r) ∨ cumRow k r = .error .triangleError := by
+    intro k r hr
+    cases r with
+    | nil => exact Or.inl ⟨⟨[], rfl⟩, fun hm => hm⟩
+    | cons x0 rest =>
+      have hsub : (x0 :: rest).Sublist u := by rw [hr]; exact List.filter_sublist
+      have hkey : ∀ c ∈ x0 :: rest, rowKey c = k := by
+        intro c hc; rw [hr] at hc; simpa using (List.mem_filter.mp hc).2
+      have hadj := h.adj k
+      rw [← hr] at hadj
+      exact cumRow_outcome ⟨hkey, fun c hc => h.dates c (hsub.subset hc)⟩ hadj
+  have hall : ∀ p ∈ orderedRows u, (∃ b, cumRow p.1 p.2 = .ok b) ∨
+      cumRow p.1 p.2 = .error .triangleError := by
+    intro p hp
+    rw [hrows] at hp
+    rcases outcome p.1 p.2 (G.content p hp) with ⟨hok, _⟩ | herr
+    · exact Or.inl hok
+    · exact Or.inr herr
+  have hex : ∃ p ∈ orderedRows u, cumRow p.1 p.2 = .error .triangleError := by
+    cases hf : u.filter (fun c => rowKey c == kb) with
+    | nil => rw [hf] at hkb; exact absurd hkb (fun hm => hm)
+    | cons x0 rest =>
+      have hx : x0 ∈ u.filter (fun c => rowKey c == kb) := by rw [hf]; simp
+      obtain ⟨hx0, hxk⟩ := List.mem_filter.mp hx
+      have hxk : rowKey x0 = kb := by simpa using hxk
+      obtain ⟨p, hp, hpk⟩ := G.covers x0 hx0
+      have hpk : p.1 = kb := hpk.trans hxk
+      have hcont := G.content p hp
+      refine ⟨p, by rw [hrows]; exact hp, ?_⟩
+      rcases outcome p.1 p.2 hcont with ⟨_, hno⟩ | herr
+      · rw [hcont, hpk] at hno; exact absurd hkb hno
+      · exact herr
+  have := mapM_error_of_all (f := fun p : RowKey × List Cell => cumRow p.1 p.2) _ hall hex
+  simp only [Triangle.toCumulative, hinc, Bool.not_true, Bool.false_eq_true, if_false, overRows, this,
+    Except.map, Except.bind]
+
+
+/-! ### 5. the executable Spec predicate on the model's output -/
+
+-- OPEN toInc_row_spec
+-- theorem toInc_row_spec {t : List Cell} (h : WFcum t) (hnd : ∀ c ∈ t, (c.values.map (·.1)).Nodup) :
+--     ∃ u, Triangle.toIncremental t = .ok u ∧ Spec.toIncRowSpec t u = true
+-- (the Bool predicate of Spec/C04.lean, which finds the predecessor of a cell as the cell of its row
+--  with the greatest smaller evaluation date and compares values key by key; evaluated by the driver
+--  on every implementation output. Proved so far: `toInc_row_spec_partial` below — the same content
+--  stated through the row function of the model.)
+
+/-- **per-row shape of `to_incremental`** (weaker than `toInc_row_spec`: stated through the row
+function `incRow` of the model instead of the independent predicate `Spec.toIncRowSpec`).
+For a valid cumulative triangle the conversion succeeds, the result is sorted and incremental, and
+for every slice and period the cells of the result under that slice and period are exactly the
+increments `incRow` computes from the row: one per evaluation date (`ds.map ev = r.map ev`), the
+first with `prev = period_start − 1 day` and a copy of the values, every later one with
+`prev =` the preceding evaluation date and `values = _values_diff(previous, this)` (definition of
+`incRow`/`incPairs`). Missing for the full statement: the bridge from `incRow` to the
+lookup-based predicate `Spec.toIncRowSpec` (predecessor = greatest smaller evaluation date). -/
+theorem toInc_row_spec_partial {t : List Cell} (h : WFcum t) :
+    ∃ u, Triangle.toIncremental t = .ok u ∧ u.Pairwise (fun a b => Cell.le a b) ∧
+      (∀ c ∈ u, c.kind = .incremental) ∧ u.length = t.length ∧
+      ∀ k r, r ≠ [] → r = t.filter (fun c => rowKey c == k) →
+        ∃ ds, incRow k r = .ok ds ∧ u.filter (fun c => rowKey c == k) = ds ∧
+          ds.map (·.ev) = r.map (·.ev) := by
+  have hrow : ∀ k r, r ≠ [] → r = t.filter (fun c => rowKey c == k) →
+      ∃ d, incRow k r = .ok d ∧ (∀ c ∈ d, rowKey c = k) ∧ StrictSorted d ∧
+        (∀ c ∈ d, c.kind = .incremental) ∧ d.map (·.ev) = r.map (·.ev) := by
+    intro k r hne hr
+    have R := h.row hr
+    cases r with
+    | nil => exact absurd rfl hne
+    | cons c0 rest =>
+      have hc0t : c0 ∈ t := by
+        have : c0 ∈ t.filter (fun c => rowKey c == k) := by rw [← hr]; simp
+        exact (List.mem_filter.mp this).1
+      have hv : k.1.1.valid = true := by
+        have := h.psValid c0 hc0t
+        rw [← R.key c0 (by simp)]; exact this
+      obtain ⟨ds, h1, _, h3, h4⟩ := incRow_cumRow R hv
+      refine ⟨ds, h1, fun c hc => (h4 c hc).2.1, ?_, fun c hc => (h4 c hc).1, h3⟩
+      apply strict_of_evs (fun c hc => (h4 c hc).2.1)
+      rw [h3, List.pairwise_map]; exact R.evs
+  obtain ⟨D, hD, hblocks⟩ := overRows_blocks (f := incRow) h.sorted
+    (fun k r hne hr => by
+      obtain ⟨d, h1, h2, h3, _⟩ := hrow k r hne hr
+      exact ⟨d, h1, h2, h3⟩)
+  obtain ⟨u, hu1, hu2⟩ := toCum_toInc h
+  have hu : u = D.mergeSort Cell.le ∧ ∀ c ∈ D, c.kind = .incremental := by
+    simp only [Triangle.toIncremental, not_isIncremental_of_all h.notInc, Bool.false_eq_true,
+      if_false, hD, Except.bind] at hu1
+    unfold Triangle.ofCells at hu1
+    split at hu1
+    · cases hu1
+      refine ⟨rfl, ?_⟩
+      intro c hc
+      -- every cell of D comes out of some row
+      unfold overRows at hD
+      cases hm : (orderedRows t).mapM (fun p => incRow p.1 p.2) with
+      | error e => rw [hm] at hD; cases hD
+      | ok rows =>
+        rw [hm] at hD
+        simp only [Except.map] at hD
+        cases hD
+        obtain ⟨d, hd, hcd⟩ := List.mem_flatten.mp hc
+        -- use the row facts through membership in the mapM result
+        have key : ∀ (l : List (RowKey × List Cell)) (rows : List (List Cell)),
+            l.mapM (fun p => incRow p.1 p.2) = .ok rows → ∀ d ∈ rows, ∃ p ∈ l, incRow p.1 p.2 = .ok d := by
+          intro l
+          induction l with
+          | nil => intro rows hr d hd; simp [List.mapM_nil, pure, Except.pure] at hr; subst hr; cases hd
+          | cons a l ih =>
+            intro rows hr d hd
+            rw [List.mapM_cons] at hr
+            cases ha : incRow a.1 a.2 with
+            | error e => rw [ha] at hr; cases hr
+            | ok da =>
+              cases hl : l.mapM (fun p => incRow p.1 p.2) with
+              | error e => rw [ha, hl] at hr; cases hr
+              | ok dl =>
+                rw [ha, hl] at hr
+                simp only [bind, Except.bind, pure, Except.pure] at hr
+                cases hr
+                rcases List.mem_cons.mp hd with rfl | hd
+                · exact ⟨a, by simp, ha⟩
+                · obtain ⟨p, hp, hpd⟩ := ih dl hl d hd
+                  exact ⟨p, List.mem_cons_of_mem _ hp, hpd⟩
+        obtain ⟨p, hp, hpd⟩ := key _ _ hm d hd
+        have G := groupBy_inv rowKey t
+        rw [orderedRows_of_strict h.sorted] at hp
+        have hcont := G.content p hp
+        have hne : p.2 ≠ [] := by
+          obtain ⟨a, ha, hak⟩ := G.inhabited p hp
+          intro e
+          have : a ∈ p.2 := by rw [hcont]; exact List.mem_filter.mpr ⟨ha, by simp [hak]⟩
+          rw [e] at this; cases this
+        obtain ⟨d', h1, _, _, h4, _⟩ := hrow p.1 p.2 hne hcont
+        rw [hpd] at h1; cases h1
+        exact h4 c hcd
+    · cases hu1
+  obtain ⟨hu, hDinc⟩ := hu
+  have hperm : u.Perm D := by rw [hu]; exact List.mergeSort_perm _ _
+  refine ⟨u, hu1, by rw [hu]; exact sorted_mergeSort (cmp := Cell.cmp) D,
+    fun c hc => hDinc c (hperm.mem_iff.mp hc), ?_, ?_⟩
+  · -- u ~ D and D is a concatenation of rows with the lengths of the rows of t
+    have G := groupBy_inv rowKey t
+    have hrows := orderedRows_of_strict h.sorted
+    have hDeq : ∃ rows, (orderedRows t).mapM (fun p => incRow p.1 p.2) = .ok rows ∧ D = rows.flatten := by
+      unfold overRows at hD
+      cases hm : (orderedRows t).mapM (fun p => incRow p.1 p.2) with
+      | error e => rw [hm] at hD; cases hD
+      | ok rows => rw [hm] at hD; simp only [Except.map] at hD; cases hD; exact ⟨rows, rfl, rfl⟩
+    obtain ⟨rows, hm, hDr⟩ := hDeq
+    have lenkey : ∀ (l : List (RowKey × List Cell)) (rows : List (List Cell)),
+        (∀ p ∈ l, ∀ d, incRow p.1 p.2 = .ok d → d.length = p.2.length) →
+        l.mapM (fun p => incRow p.1 p.2) = .ok rows → rows.flatten.length = (l.flatMap (·.2)).length := by
+      intro l
+      induction l with
+      | nil => intro rows _ hr; simp [List.mapM_nil, pure, Except.pure] at hr; subst hr; rfl
+      | cons a l ih =>
+        intro rows hlen hr
+        rw [List.mapM_cons] at hr
+        cases ha : incRow a.1 a.2 with
+        | error e => rw [ha] at hr; cases hr
+        | ok da =>
+          cases hl : l.mapM (fun p => incRow p.1 p.2) with
+          | error e => rw [ha, hl] at hr; cases hr
+          | ok dl =>
+            rw [ha, hl] at hr
+            simp only [bind, Except.bind, pure, Except.pure] at hr
+            cases hr
+            simp only [List.flatten_cons, List.length_append, List.flatMap_cons]
+            rw [hlen a (by simp) da ha, ih dl (fun p hp => hlen p (List.mem_cons_of_mem _ hp)) hl]
+    have := lenkey _ rows (by
+      intro p hp d hpd
+      rw [hrows] at hp
+      have hcont := G.content p hp
+      have hne : p.2 ≠ [] := by
+        obtain ⟨a, ha, hak⟩ := G.inhabited p hp
+        intro e
+        have : a ∈ p.2 := by rw [hcont]; exact List.mem_filter.mpr ⟨ha, by simp [hak]⟩
+        rw [e] at this; cases this
+      obtain ⟨d', h1, _, _, _, h5⟩ := hrow p.1 p.2 hne hcont
+      rw [hpd] at h1; cases h1
+      have := congrArg List.length h5
+      simpa using this) hm
+    rw [hperm.length_eq, hDr, this, hrows, G.perm.length_eq]
+  · intro k r hne hr
+    obtain ⟨d, h1, h2⟩ := hblocks k r hne hr
+    obtain ⟨d', h1', _, _, _, h5⟩ := hrow k r hne hr
+    rw [h1] at h1'; cases h1'
+    exact ⟨d, h1, by rw [hu]; exact h2, h5⟩
+
+
 /-! ### 6. non-vacuity -/
 
 def mA : Metadata := { country := some "DE" }
@@ -452,6 +663,41 @@ theorem exU_complete : Complete exU := by
 
 example : ∃ t, Triangle.toCumulative exU = .ok t ∧ Triangle.toIncremental t = .ok exU :=
   toInc_toCum exU_complete
+
+
+
+theorem chainFromB_of : ∀ {d : Date} {l : List Cell}, ChainFrom d l → chainFromB d l = true
+  | _, [], _ => rfl
+  | d, c :: rest, h => by
+    simp only [chainFromB, Bool.and_eq_true, beq_iff_eq]
+    exact ⟨h.1, chainFromB_of h.2⟩
+
+theorem not_rowChain_of_B {u : List Cell} {k : RowKey} (h : rowChainB u k = false) : ¬ RowChain u k := by
+  intro hc
+  unfold RowChain at hc
+  unfold rowChainB at h
+  cases hf : u.filter (fun c => rowKey c == k) with
+  | nil => rw [hf] at h; cases h
+  | cons x0 rest =>
+    rw [hf] at h hc
+    have : (x0.prev == some k.1.1.pred && chainFromB x0.ev rest) = true := by
+      simp only [Bool.and_eq_true, beq_iff_eq]
+      exact ⟨hc.1, chainFromB_of hc.2⟩
+    simp only at h
+    rw [this] at h; cases h
+
+/-- `exU` with one link removed (the 2021 evaluation of slice US, period 2020) -/
+def exUbroken : List Cell := exU.eraseIdx 3
+
+/-- non-vacuity of `toCum_error_of_broken_chain`: the triangle with one link removed is still
+consistent, but the row it was taken from is no longer a complete chain — it is refused -/
+example : Triangle.toCumulative exUbroken = .error .triangleError := by
+  refine toCum_error_of_broken_chain ⟨by decide +kernel, by decide +kernel, by decide +kernel,
+    by decide +kernel, by decide +kernel, ?_⟩ (by decide +kernel)
+    ⟨((d 2020 1 1, d 2020 12 31), mB), not_rowChain_of_B (by decide +kernel)⟩
+  have : ∀ a ∈ exUbroken, ∀ b ∈ exUbroken, rowKey a = rowKey b →
+      dictCompatB a.values b.values = true := by decide +kernel
+  exact fun a ha b hb e => dictCompat_of_B (this a ha b hb e)
 
 
 end Bermuda.Properties.C04
